@@ -32,11 +32,13 @@ let () =
   let pos = ref 0 in
   let next () = let l = lines.(!pos) in incr pos; toks l in
   let files : file list ref = ref [] in
+  let sections_ok = ref true in
   while !pos < Array.length lines do
     match next () with
     | "P" :: _ :: nf :: _ ->
         let nf = int_of_string nf in
         files := [];
+        sections_ok := true;
         for _ = 1 to nf do
           (match next () with
            | [ "file"; n ] ->
@@ -55,7 +57,19 @@ let () =
                  | "sec" :: xs -> List.map (fun x -> nat_of_int (int_of_string x)) xs
                  | _ -> failwith "sec line" in
                let a = sec () in let b = sec () in let c = sec () in
-               files := !files @ [ { f_streams = List.rev !ss; f_by_id = a; f_by_ftime = b; f_by_ltime = c } ]
+               let f = { f_streams = List.rev !ss; f_by_id = a; f_by_ftime = b; f_by_ltime = c } in
+               (* hypothesis sections_ok of the theorems, checked on the real file: every section is a
+                  permutation of the stream indexes and ordered by its key *)
+               let arr = Array.of_list f.f_streams in
+               let check sec (lt : stream -> stream -> bool) =
+                 let l = List.map int_of_nat sec in
+                 if List.sort compare l <> List.init n (fun i -> i) then sections_ok := false;
+                 let rec go = function
+                   | x :: (y :: _ as r) -> if lt arr.(y) arr.(x) then sections_ok := false; go r
+                   | _ -> () in
+                 go l in
+               check a (key_lt KId); check b (key_lt KFtime); check c (key_lt KLtime);
+               files := !files @ [ f ]
            | _ -> failwith "file line")
         done
     | [ "X"; _; _ ] -> ()
@@ -105,7 +119,7 @@ let () =
             (if more then "1:" else "0:") ^
             String.concat "," (List.map (fun ((fi, si), _) -> Printf.sprintf "%d.%d" (int_of_nat fi) (int_of_nat si)) res) in
           output_string oc (Printf.sprintf "M %s %s %s %s H=%d sat=%s\n" pi si (show v_fixed) (show v_orig)
-                              (if !hyp then 1 else 0) (Buffer.contents sat));
+                              (if !hyp && !sections_ok then 1 else 0) (Buffer.contents sat));
           flush oc
         end
     | [] -> ()
